@@ -109,6 +109,17 @@ LineMatches(obs, ref) ==
   /\ Len(o) = Len(r)
   /\ \A k \in 1..Len(r) : /\ o[k].c = r[k].c
                           /\ (k = 1 \/ ((o[k].sp => r[k].gap >= 1) /\ (r[k].gap = 2 => o[k].sp)))
+\* blanks in front of the first visible character: the cells written as spaces are there, a mid-row
+\* cell may or may not show as one (a row whose text starts at its third cell reads with two blanks
+\* in front: dropping them moves the text on the screen)
+RECURSIVE LeadObs(_)
+LeadObs(chars) == IF chars # <<>> /\ IsSp(Head(chars)[1]) THEN 1 + LeadObs(Tail(chars)) ELSE 0
+RECURSIVE LeadRef(_, _)
+LeadRef(cells, which) ==
+  IF cells = <<>> \/ ~(Head(cells).ch \in {-1, 0, 32}) THEN 0
+  ELSE (IF (Head(cells).ch = -1) = (which = "mid") THEN 1 ELSE 0) + LeadRef(Tail(cells), which)
+LeadOk(obs, ref) == /\ LeadObs(obs) >= LeadRef(ref, "real")
+                    /\ LeadObs(obs) <= LeadRef(ref, "real") + LeadRef(ref, "mid")
 ItalicsMatch(obs, ref) ==
   LET o == ObsToks(obs, FALSE) r == RefToks(ref, 0) IN
   \A k \in 1..Len(r) : o[k].it = r[k].it
@@ -142,7 +153,7 @@ ExpectCaps(ev) ==
 
 \* C05: text, rows, italics, position
 CapTextOk(o, e) == LET ol == LinesOf(o) IN
-  Len(ol) = Len(e.lines) /\ \A k \in 1..Len(ol) : LineMatches(ol[k], e.lines[k])
+  Len(ol) = Len(e.lines) /\ \A k \in 1..Len(ol) : LineMatches(ol[k], e.lines[k]) /\ LeadOk(ol[k], e.lines[k])
 CapItalicsOk(o, e) == LET ol == LinesOf(o) IN \A k \in 1..Len(ol) : ItalicsMatch(ol[k], e.lines[k])
 \* x = 10 + 80 col / 32, y = 5 + 90 (row - 1) / 15  (both times 32 resp. 15 are integers)
 CapPositionOk(o, e) == o.x32 = 320 + 80 * e.col /\ o.y15 = 75 + 90 * (e.row - 1)
